@@ -24,6 +24,32 @@ Definition oA (cls code : N) : out tx := OutAdd (mk_err cls code).
 Definition oB (l : list tx) : out tx := OutBuffered l.
 Definition oR (cls code : N) (l : list tx) : out tx := OutRebase (mk_err cls code) l.
 
+(* compact builders: the generated files apply these functions instead of writing nested
+   pairs, which keeps the elaborated case terms small *)
+Definition X (k a b v : N) : tx := (k, a, b, v).
+Definition D (x : out tx) (b : st) (u : bool) (c : st) (l : list tx) : out tx * isnap := (x, (b, u, c, l)).
+Definition P (x : out tx) (l : list tx) : out tx * list tx := (x, l).
+(* digit-packed forms used when every field is < 10 (always true for generated cases):
+   Xd 2103 = X 2 1 0 3;  Ld = map Xd;  Sd 1405 = [4;0;5] (leading 1 is a sentinel) *)
+Definition Xd (n : N) : tx := (n / 1000, (n / 100) mod 10, (n / 10) mod 10, n mod 10).
+Definition Ld (l : list N) : list tx := map Xd l.
+Fixpoint sd_go (fuel : nat) (n : N) (acc : st) : st :=
+  match fuel with
+  | O => acc
+  | Datatypes.S f => if n <=? 1 then acc else sd_go f (n / 10) (n mod 10 :: acc)
+  end.
+Definition Sd (n : N) : st := sd_go 64 n [].
+Definition OX (o : op st tx) (x : out tx) : op st tx * out tx := (o, x).
+Definition snap_txs (s : isnap) : list tx := let '(_, _, _, l) := s in l.
+(* [None] for the API observations = identical to the direct driver's (result, Txs) per request *)
+Definition C (id mode cap : N) (b : st) (ops : list (op st tx)) (dobs : list (out tx * isnap))
+           (aobs : option (list (out tx * list tx))) : icase :=
+  (id, mode, cap, b, ops, dobs,
+   match aobs with
+   | Some a => a
+   | None => map (fun o : out tx * isnap => (fst o, snap_txs (snd o))) dobs
+   end).
+
 Definition i_out_eqb := @out_eqb tx tx_eqb.
 
 Definition wstate_matches (w : wstate st tx) (s : isnap) : bool :=
@@ -60,8 +86,6 @@ Definition corr_api (c : icase) : bool :=
   zip_all (fun (m : out tx * wstate st tx) (o : out tx * list tx) =>
              i_out_eqb (fst m) (fst o) && txs_eqb (txs (snd m)) (snd o))
           (model_states mode cap b ops) aobs.
-
-Definition snap_txs (s : isnap) : list tx := let '(_, _, _, l) := s in l.
 
 (** monitors on the implementation's observations *)
 Definition mon_direct (c : icase) : bool :=
@@ -102,6 +126,9 @@ Definition conc_ok (c : ccase) : bool :=
   let w := fst (run (apply_inst cap) (deleter_inst mode) (init b) pre) in
   let n := fold_right (fun th acc => (length th + acc)%nat) 1%nat ths in
   c19_serializable (apply_inst cap) (deleter_inst mode) tx_eqb n (base w) (txs w) ths final.
+
+Definition CC (id mode cap : N) (b : st) (pre : list (op st tx)) (ths : list (list (op st tx * out tx)))
+           (final : list tx) : ccase := (id, mode, cap, b, pre, ths, final).
 
 Definition ccase_id (c : ccase) : N := let '(i, _, _, _, _, _, _) := c in i.
 Definition bad_cids (cs : list ccase) : list N := map ccase_id (filter (fun c => negb (conc_ok c)) cs).
